@@ -328,6 +328,27 @@ class TermGen:
             lhs, rhs = rhs, lhs
         return T('app', 'Bool', head=op, args=[lhs, rhs])
 
+    # ---------------------------------------------------------------- dense linear atoms ("la-dense" mode)
+    def la_atom(self, sort):
+        """Bound on a variable or on a short linear combination of 2-3 variables with small coefficients: a few such atoms over
+        3-4 variables make tableau rows whose bounds interact (activation of rows, pivots on non-unit entries, restored
+        assignments after a failed check)."""
+        r = self.rng
+        vs = self.sig.consts[sort]
+        k = 1 if r.random() < 0.4 else min(len(vs), r.choice([2, 2, 3]))
+        xs = r.sample(vs, k)
+        terms = []
+        for x in xs:
+            c = r.choice([1, 1, 1, -1, -1, 2, -2, 3]) if sort == 'Int' else r.choice([1, 1, 1, -1, -1, 2, -2, 3, Fraction(1, 2), Fraction(-3, 2)])
+            v = T('var', sort, val=x)
+            terms.append(v if c == 1 else T('app', sort, head='*', args=[T('num', sort, val=Fraction(c)), v]))
+        lhs = terms[0] if len(terms) == 1 else T('app', sort, head='+', args=terms)
+        rhs = T('num', sort, val=Fraction(r.randint(-6, 8)))
+        if sort == 'Real' and r.random() < 0.15:
+            rhs = T('num', sort, val=r.choice(SMALL_FRACS))
+        op = r.choice(['<=', '>=', '<=', '>=', '<', '>', '='])
+        return T('app', 'Bool', head=op, args=[lhs, rhs] if r.random() < 0.85 else [rhs, lhs])
+
     # ---------------------------------------------------------------- atoms and Boolean structure
     def atom(self, d):
         r = self.rng
